@@ -369,9 +369,9 @@ structure InvOK (q : Nat) (m : StepMeta) (M' : Nat) : Prop where
   spm : SpmOK q m M'
   sum_lt : M' + spmBound q m.halfBs M' < 2 ^ 64
   no_underflow : spmBound q m.halfBs M' ≤ m.q2bs
+  diff_lt : M' + m.q2bs < 2 ^ 64
 
-theorem invTail_spec (r : ReducK) (hr : ReducOK q r) (m : StepMeta) (M : Nat) (hM : M < 2 ^ 64)
-    (ok : BflyOK q m (redBound r m.reduce M)) (ρ : ZMod q) :
+theorem invTail_spec (r : ReducK) (hr : ReducOK q r) (m : StepMeta) (M : Nat) (hM : M < 2 ^ 64) (hqd : q ∣ m.q2bs) (ρ : ZMod q) :
     ∀ (tw lo hi : List Nat) (σ : ZMod q), tw.length = lo.length → lo.length = hi.length → AllLe M lo → AllLe M hi →
       (tw ≠ [] → InvOK q m (redBound r m.reduce M)) → TwFrom q m.halfBs ρ σ tw →
       (invTail r m tw lo hi).1.map (cz q) = addL (lo.map (cz q)) (scaleFrom σ ρ (hi.map (cz q))) ∧
@@ -404,7 +404,7 @@ theorem invTail_spec (r : ReducK) (hr : ReducOK q r) (m : StepMeta) (M : Nat) (h
       obtain ⟨i1, i2, i3, i4, i5, i6⟩ := ih lo' hi' (σ * ρ) h1' h2' hlo' hhi' (fun _ => iv) htw'
       have hs := iv.sum_lt
       have hu := iv.no_underflow
-      have hd := ok.diff_lt
+      have hd := iv.diff_lt
       set bo := splitPrecompmul (redIf r m b) po m.halfBs m.mask with hbo
       have w1 : wu64 (redIf r m a + bo) = redIf r m a + bo := wu64_of_lt _ (by omega)
       have w2 : wu64 (redIf r m a + m.q2bs) = redIf r m a + m.q2bs := wu64_of_lt _ (by omega)
@@ -415,7 +415,7 @@ theorem invTail_spec (r : ReducK) (hr : ReducOK q r) (m : StepMeta) (M : Nat) (h
         unfold cz at *
         have hle : bo ≤ redIf r m a + m.q2bs := by omega
         rw [Nat.cast_sub hle]; push_cast
-        have hq : ((m.q2bs : Nat) : ZMod q) = 0 := (ZMod.natCast_eq_zero_iff _ _).mpr ok.q_dvd
+        have hq : ((m.q2bs : Nat) : ZMod q) = 0 := (ZMod.natCast_eq_zero_iff _ _).mpr hqd
         rw [ea, e3, eb, hq]; ring
       simp only [invTail, List.map_cons, addL, subL, List.zipWith_cons_cons, scaleFrom, List.length_cons] at *
       rw [← hbo, w1, w2, w3]
@@ -433,34 +433,48 @@ theorem invTail_spec (r : ReducK) (hr : ReducOK q r) (m : StepMeta) (M : Nat) (h
       · rw [i5]
       · rw [i6]
 
-/-- worst-case magnitude after one inverse level -/
-def invOut (q : Nat) (r : ReducK) (m : StepMeta) (M : Nat) (last : Bool) : Nat :=
-  let M' := redBound r m.reduce M
-  if last then max (2 * M') (M' + m.q2bs) else max (2 * M') (max (M' + m.q2bs) (M' + spmBound q m.halfBs M'))
+/-- worst-case magnitudes `(all positions, position 0)` after one inverse level.  Position 0 of a
+block is never multiplied by a twiddle (it is the plain sum of the two position-0 elements), so it
+is tracked separately: the twiddle-free butterfly `a + q2bs − b` only has to clear *its* magnitude -/
+def invOut (q : Nat) (r : ReducK) (m : StepMeta) (MH : Nat × Nat) (last : Bool) : Nat × Nat :=
+  let M' := redBound r m.reduce MH.1
+  let H' := redBound r m.reduce MH.2
+  (if last then max (2 * H') (H' + m.q2bs)
+   else max (max (2 * H') (H' + m.q2bs)) (max (M' + m.q2bs) (M' + spmBound q m.halfBs M')), 2 * H')
 
 /-- **one inverse block**: `intt_butterfly_block` computes `(lo + hi·ρ^i, lo − hi·ρ^i)` modulo `q` -/
-theorem invBfly_spec (r : ReducK) (hr : ReducOK q r) (m : StepMeta) (M : Nat) (hM : M < 2 ^ 64)
-    (ok : BflyOK q m (redBound r m.reduce M)) (ρ : ZMod q) (tw lo hi : List Nat)
+theorem invBfly_spec (r : ReducK) (hr : ReducOK q r) (m : StepMeta) (M H : Nat) (hM : M < 2 ^ 64) (hH : H < 2 ^ 64)
+    (ok : BflyOK q m (redBound r m.reduce H)) (ρ : ZMod q) (tw lo hi : List Nat)
     (h1 : tw.length + 1 = lo.length) (h2 : lo.length = hi.length) (hlo : AllLe M lo) (hhi : AllLe M hi)
+    (hlo0 : lo.getD 0 0 ≤ H) (hhi0 : hi.getD 0 0 ≤ H)
     (hinv : tw ≠ [] → InvOK q m (redBound r m.reduce M)) (htw : TwFrom q m.halfBs ρ ρ tw) :
     (invBfly r m tw lo hi).1.map (cz q) = addL (lo.map (cz q)) (scalePow ρ (hi.map (cz q))) ∧
     (invBfly r m tw lo hi).2.map (cz q) = subL (lo.map (cz q)) (scalePow ρ (hi.map (cz q))) ∧
-    AllLe (invOut q r m M tw.isEmpty) (invBfly r m tw lo hi).1 ∧ AllLe (invOut q r m M tw.isEmpty) (invBfly r m tw lo hi).2 ∧
+    AllLe (invOut q r m (M, H) tw.isEmpty).1 (invBfly r m tw lo hi).1 ∧ AllLe (invOut q r m (M, H) tw.isEmpty).1 (invBfly r m tw lo hi).2 ∧
+    (invBfly r m tw lo hi).1.getD 0 0 ≤ (invOut q r m (M, H) tw.isEmpty).2 ∧
     (invBfly r m tw lo hi).1.length = lo.length ∧ (invBfly r m tw lo hi).2.length = lo.length := by
   match lo, hi, h1, h2 with
   | a :: lo', b :: hi', h1, h2 =>
     have h1' : tw.length = lo'.length := by simpa using h1
     have h2' : lo'.length = hi'.length := by simpa using h2
-    obtain ⟨haM, hlo'⟩ := hlo.cons
-    obtain ⟨hbM, hhi'⟩ := hhi.cons
-    obtain ⟨e1, l1, e2, l2⟩ := bfly_spec r hr m a b M haM hbM hM ok
-    obtain ⟨i1, i2, i3, i4, i5, i6⟩ := invTail_spec r hr m M hM ok ρ tw lo' hi' ρ h1' h2' hlo' hhi' hinv htw
-    have hb1 : 2 * redBound r m.reduce M ≤ invOut q r m M tw.isEmpty := by
+    obtain ⟨_, hlo'⟩ := hlo.cons
+    obtain ⟨_, hhi'⟩ := hhi.cons
+    have haH : a ≤ H := by simpa using hlo0
+    have hbH : b ≤ H := by simpa using hhi0
+    obtain ⟨e1, l1, e2, l2⟩ := bfly_spec r hr m a b H haH hbH hH ok
+    obtain ⟨i1, i2, i3, i4, i5, i6⟩ := invTail_spec r hr m M hM ok.q_dvd ρ tw lo' hi' ρ h1' h2' hlo' hhi' hinv htw
+    have hb1 : 2 * redBound r m.reduce H ≤ (invOut q r m (M, H) tw.isEmpty).1 := by
       unfold invOut; simp only []; split <;> omega
-    have hb2 : redBound r m.reduce M + m.q2bs ≤ invOut q r m M tw.isEmpty := by
+    have hb2 : redBound r m.reduce H + m.q2bs ≤ (invOut q r m (M, H) tw.isEmpty).1 := by
       unfold invOut; simp only []; split <;> omega
-    simp only [invBfly, List.map_cons, addL, subL, List.zipWith_cons_cons, List.length_cons, scalePow_cons] at *
-    refine ⟨?_, ?_, ?_, ?_, ?_, ?_⟩
+    have hb0 : (invOut q r m (M, H) tw.isEmpty).2 = 2 * redBound r m.reduce H := rfl
+    simp only [invBfly, List.map_cons, addL, subL, List.zipWith_cons_cons, List.length_cons, scalePow_cons, List.getD_cons_zero] at *
+    have htl : tw ≠ [] → redBound r m.reduce M + m.q2bs ≤ (invOut q r m (M, H) tw.isEmpty).1 ∧
+        redBound r m.reduce M + spmBound q m.halfBs (redBound r m.reduce M) ≤ (invOut q r m (M, H) tw.isEmpty).1 := by
+      intro hne
+      have : tw.isEmpty = false := by cases tw <;> simp_all
+      unfold invOut; simp only [this]; simp only [Bool.false_eq_true, if_false]; omega
+    refine ⟨?_, ?_, ?_, ?_, ?_, ?_, ?_⟩
     · rw [e1, i1]
     · rw [e2, i2]
     · intro x hx
@@ -471,35 +485,41 @@ theorem invBfly_spec (r : ReducK) (hr : ReducOK q r) (m : StepMeta) (M : Nat) (h
           have : lo' = [] := List.length_eq_zero_iff.mp h1'.symm
           subst this
           simp [invTail] at hx
-        · have : tw.isEmpty = false := by cases tw <;> simp_all
-          have hb3 : redBound r m.reduce M + spmBound q m.halfBs (redBound r m.reduce M) ≤ invOut q r m M tw.isEmpty := by
-            unfold invOut; simp only [this]; simp
-          exact le_trans (i3 x hx) hb3
+        · exact le_trans (i3 x hx) (htl hemp).2
     · intro x hx
       rcases List.mem_cons.mp hx with rfl | hx
       · exact le_trans l2 hb2
-      · exact le_trans (i4 x hx) hb2
+      · by_cases hemp : tw = []
+        · subst hemp
+          have : lo' = [] := List.length_eq_zero_iff.mp h1'.symm
+          subst this
+          simp [invTail] at hx
+        · exact le_trans (i4 x hx) (htl hemp).1
+    · rw [hb0]; exact l1
     · rw [i5]
     · rw [i6]
 
 /-! ### all inverse levels, last pass, whole inverse transform -/
 
-/-- worst-case magnitude after the inverse levels of a block (metadata in block-size-descending order) -/
-def invChainOut (q : Nat) (r : ReducK) : List StepMeta → Nat → Nat
-  | [], M => M
+/-- worst-case magnitudes `(all, position 0)` after the inverse levels of a block (metadata in
+block-size-descending order), from the leaf magnitude `M` -/
+def invChainOut (q : Nat) (r : ReducK) : List StepMeta → Nat → Nat × Nat
+  | [], M => (M, M)
   | m :: rest, M => invOut q r m (invChainOut q r rest M) rest.isEmpty
 
 /-- the decidable numeric schedule check of the inverse levels of a block -/
 def invSchedOK (q : Nat) (r : ReducK) : List StepMeta → Nat → Bool
   | [], _ => true
   | m :: rest, M =>
-    let Min := invChainOut q r rest M
-    let M' := redBound r m.reduce Min
+    let MH := invChainOut q r rest M
+    let M' := redBound r m.reduce MH.1
+    let H' := redBound r m.reduce MH.2
     invSchedOK q r rest M &&
-    decide (Min < 2 ^ 64) && decide (2 * M' < 2 ^ 64) && decide (M' + m.q2bs < 2 ^ 64) && decide (M' ≤ m.q2bs) &&
+    decide (MH.1 < 2 ^ 64) && decide (MH.2 < 2 ^ 64) && decide (2 * H' < 2 ^ 64) && decide (H' + m.q2bs < 2 ^ 64) && decide (H' ≤ m.q2bs) &&
     decide (m.q2bs % q = 0) &&
     (rest.isEmpty || (decide (q < 2 ^ 31) && decide (m.mask = 2 ^ m.halfBs - 1) && decide (m.halfBs ≤ 32) &&
-      decide (M' < 2 ^ (2 * m.halfBs)) && decide (M' + spmBound q m.halfBs M' < 2 ^ 64) && decide (spmBound q m.halfBs M' ≤ m.q2bs)))
+      decide (M' < 2 ^ (2 * m.halfBs)) && decide (M' + spmBound q m.halfBs M' < 2 ^ 64) && decide (spmBound q m.halfBs M' ≤ m.q2bs) &&
+      decide (M' + m.q2bs < 2 ^ 64)))
 
 /-- the twiddle conditions of the inverse levels of a block (descending order) with root `ρ` -/
 def InvTwOK (q : Nat) : ZMod q → List Level → Prop
@@ -511,35 +531,45 @@ theorem inttLevels_spec (r : ReducK) (hr : ReducOK q r) :
     ∀ (levels : List Level) (ρ : ZMod q) (M : Nat) (v : List Nat), invSchedOK q r (levels.map Prod.fst) M = true →
       InvTwOK q ρ levels → v.length = 2 ^ levels.length → AllLe M v →
       (inttLevels r levels v).map (cz q) = dit ρ levels.length (v.map (cz q)) ∧
-      AllLe (invChainOut q r (levels.map Prod.fst) M) (inttLevels r levels v) ∧ (inttLevels r levels v).length = v.length := by
+      AllLe (invChainOut q r (levels.map Prod.fst) M).1 (inttLevels r levels v) ∧
+      (inttLevels r levels v).getD 0 0 ≤ (invChainOut q r (levels.map Prod.fst) M).2 ∧
+      (inttLevels r levels v).length = v.length := by
   intro levels
   induction levels with
-  | nil => intro ρ M v _ _ _ h; simpa [inttLevels, dit, invChainOut] using h
+  | nil =>
+    intro ρ M v _ _ hv h
+    refine ⟨by simp [inttLevels, dit], by simpa [inttLevels, invChainOut] using h, ?_, by simp [inttLevels]⟩
+    match v, hv with
+    | [x], _ => simpa [inttLevels, invChainOut] using h x (by simp)
   | cons l rest ih =>
     intro ρ M v hs ht hv hle
     obtain ⟨m, tw⟩ := l
     obtain ⟨htl, htw, htrest⟩ := ht
     simp only [List.map_cons, invSchedOK, Bool.and_eq_true, decide_eq_true_eq, Bool.or_eq_true, List.isEmpty_map] at hs
-    obtain ⟨⟨⟨⟨⟨⟨hsrest, hM⟩, h1⟩, h2⟩, h3⟩, h4⟩, h5⟩ := hs
+    obtain ⟨⟨⟨⟨⟨⟨⟨hsrest, hM⟩, hH⟩, h1⟩, h2⟩, h3⟩, h4⟩, h5⟩ := hs
     have hemp := isEmpty_of_len tw rest htl
-    have hb : BflyOK q m (redBound r m.reduce (invChainOut q r (rest.map Prod.fst) M)) := ⟨h1, h2, h3, Nat.dvd_of_mod_eq_zero h4⟩
-    have hinv : tw ≠ [] → InvOK q m (redBound r m.reduce (invChainOut q r (rest.map Prod.fst) M)) := by
+    have hb : BflyOK q m (redBound r m.reduce (invChainOut q r (rest.map Prod.fst) M).2) := ⟨h1, h2, h3, Nat.dvd_of_mod_eq_zero h4⟩
+    have hinv : tw ≠ [] → InvOK q m (redBound r m.reduce (invChainOut q r (rest.map Prod.fst) M).1) := by
       intro hne
       have : rest.isEmpty = false := by rw [← hemp]; cases tw <;> simp_all
       rw [this] at h5
       simp only [Bool.false_eq_true, false_or] at h5
-      exact ⟨⟨h5.1.1.1.1.1, h5.1.1.1.1.2, h5.1.1.1.2, h5.1.1.2⟩, h5.1.2, h5.2⟩
+      exact ⟨⟨h5.1.1.1.1.1.1, h5.1.1.1.1.1.2, h5.1.1.1.1.2, h5.1.1.1.2⟩, h5.1.1.2, h5.1.2, h5.2⟩
     have hv' : v.length = 2 ^ (rest.length + 1) := by simpa using hv
     obtain ⟨_, hlo, hhi⟩ := halves_length v rest.length hv'
-    obtain ⟨i1, b1, j1⟩ := ih (ρ * ρ) M _ hsrest htrest hlo (hle.take _)
-    obtain ⟨i2, b2, j2⟩ := ih (ρ * ρ) M _ hsrest htrest hhi (hle.drop _)
-    obtain ⟨e1, e2, c1, c2, n1, n2⟩ := invBfly_spec r hr m _ hM hb ρ tw _ _
-      (by rw [j1, hlo]; exact htl) (by rw [j1, j2, hlo, hhi]) b1 b2 hinv htw
-    rw [hemp] at c1 c2
+    obtain ⟨i1, b1, g1, j1⟩ := ih (ρ * ρ) M _ hsrest htrest hlo (hle.take _)
+    obtain ⟨i2, b2, g2, j2⟩ := ih (ρ * ρ) M _ hsrest htrest hhi (hle.drop _)
+    obtain ⟨e1, e2, c1, c2, c0, n1, n2⟩ := invBfly_spec r hr m _ _ hM hH hb ρ tw _ _
+      (by rw [j1, hlo]; exact htl) (by rw [j1, j2, hlo, hhi]) b1 b2 g1 g2 hinv htw
+    rw [hemp] at c1 c2 c0
     simp only [inttLevels, List.length_cons, dit, List.map_append, List.length_map, invChainOut, List.map_cons, List.isEmpty_map]
     rw [e1, e2, i1, i2, map_take, map_drop]
-    refine ⟨rfl, c1.append c2, ?_⟩
-    rw [List.length_append, n1, n2, j1, hlo, hv', pow_succ]; ring
+    refine ⟨rfl, c1.append c2, ?_, ?_⟩
+    · have hne : 0 < (invBfly r m tw (inttLevels r rest (List.take (v.length / 2) v)) (inttLevels r rest (List.drop (v.length / 2) v))).1.length := by
+        rw [n1, j1, hlo]; exact Nat.two_pow_pos _
+      rw [List.getD_eq_getElem?_getD, List.getElem?_append_left hne, ← List.getD_eq_getElem?_getD]
+      exact c0
+    · rw [List.length_append, n1, n2, j1, hlo, hv', pow_succ]; ring
 
 /-- conditions on an inverse table of size `2^k` (`k ≥ 1`) with `ω' = ω⁻¹` and `ninv = n⁻¹` -/
 def InvTableOK (q : Nat) (t : TableK) (ω' ninv : ZMod q) : Prop :=
@@ -548,8 +578,8 @@ def InvTableOK (q : Nat) (t : TableK) (ω' ninv : ZMod q) : Prop :=
   | [] => False
   | (mL, twL) :: revL =>
     invSchedOK q t.reduc (revL.map Prod.fst) (2 ^ 64 - 1) = true ∧ InvTwOK q (ω' * ω') revL ∧
-    invChainOut q t.reduc (revL.map Prod.fst) (2 ^ 64 - 1) < 2 ^ 64 ∧
-    SpmOK q mL (redBound t.reduc mL.reduce (invChainOut q t.reduc (revL.map Prod.fst) (2 ^ 64 - 1))) ∧
+    (invChainOut q t.reduc (revL.map Prod.fst) (2 ^ 64 - 1)).1 < 2 ^ 64 ∧
+    SpmOK q mL (redBound t.reduc mL.reduce (invChainOut q t.reduc (revL.map Prod.fst) (2 ^ 64 - 1)).1) ∧
     twL.length = 2 ^ revL.length ∧ TwFrom q mL.halfBs ω' ninv twL
 
 /-- **`intt_ref` (one lane) computes `inttM ω⁻¹ n⁻¹` modulo `q`** on every `u64` input vector -/
@@ -564,8 +594,8 @@ theorem inttK_spec (t : TableK) (ω' ninv : ZMod q) (ok : InvTableOK q t ω' nin
     obtain ⟨hsched, htwo, hMw, sp, htl, htw⟩ := hl
     have hk : t.levels.length - 1 = revL.length := by rw [← hlen, hlv]; simp
     rw [hk] at hv ⊢
-    obtain ⟨e1, b1, n1⟩ := inttLevels_spec t.reduc hr revL (ω' * ω') _ v hsched htwo hv hu
-    obtain ⟨e2, _, n2⟩ := twist_spec mL (invChainOut q t.reduc (revL.map Prod.fst) (2 ^ 64 - 1)) _ sp ω' (redIf t.reduc mL)
+    obtain ⟨e1, b1, _, n1⟩ := inttLevels_spec t.reduc hr revL (ω' * ω') _ v hsched htwo hv hu
+    obtain ⟨e2, _, n2⟩ := twist_spec mL (invChainOut q t.reduc (revL.map Prod.fst) (2 ^ 64 - 1)).1 _ sp ω' (redIf t.reduc mL)
       (fun x hx => redIf_spec t.reduc hr mL x _ hx hMw) _ twL ninv (by rw [n1, hv, htl]) b1 htw
     simp only []
     rw [e2, e1, scaleFrom_eq_map]
